@@ -12,6 +12,8 @@ Oracle: full-matrix Wagner-Fischer / brute force over all substrings (mc/refmode
 import copy
 import itertools
 
+import numpy as np
+
 from mc.refmodels.editdist import wagner_fischer, best_substring_distance, same
 
 ID = 'C13'
@@ -185,6 +187,24 @@ def check_pair(case, ctx):
             ctx.violation('alignment-has-exactly-the-distance', f'{K}/path/cost',
                           f'levenshtein_alignment_path({s!r},{t!r},{sub},{ins},{dele}) = {path!r} costs {c}, distance {want}')
 
+    # unusual-but-legal use: tuples / numpy arrays as sequences, repeated calls, inputs left untouched
+    if unit and r in ('int', 'str') and len(s) + len(t) <= 5:
+        for conv, cname in ((tuple, 'tuple'), (np.asarray, 'ndarray')):
+            if cname == 'ndarray' and (not s or not t):
+                continue
+            cs, ct = conv(s), conv(t)
+            d1 = sa.levenshtein_distance(cs, ct)
+            d2 = sa.levenshtein_distance(cs, ct)
+            al2 = sa.levenshtein_alignment(cs, ct)
+            ctx.executed(3)
+            if float(d1) != want or float(d2) != want or align_cost(al2, 1, 1, 1) != want:
+                ctx.violation('distance-is-minimum-edit-cost', f'{K}/{cname}-input',
+                              f'levenshtein_distance / alignment on {cname} inputs {s!r},{t!r}: {d1}, {d2}, {al2!r}; true minimum {want}')
+                break
+            if list(cs) != list(s) or list(ct) != list(t):
+                ctx.violation('distance-is-minimum-edit-cost', f'{K}/modifies-its-input', f'{s!r},{t!r} became {list(cs)!r},{list(ct)!r}')
+                break
+        ctx.tag('other-containers')
     diag = sum(0 if same(a, b) else sub for a, b in zip(s, t)) + (len(t) - len(s)) * ins if len(t) >= len(s) else \
         sum(0 if same(a, b) else sub for a, b in zip(s, t)) + (len(s) - len(t)) * dele
     if s and t and want < diag:
@@ -333,5 +353,5 @@ def describe(tier):
                         'for equal-length inputs either sequence may play the role of "the longer sequence"',
                         'sequences longer than the bound and costs above 4 are not explored'],
         'min_nontrivial': 10,
-        'required_tags': ['optimum-beats-diagonal', 'substring-beats-whole', 'aggregate-of-several'],
+        'required_tags': ['optimum-beats-diagonal', 'substring-beats-whole', 'aggregate-of-several', 'other-containers'],
     }
